@@ -58,22 +58,28 @@ from prompt_toolkit.output import DummyOutput
 
 ID = "C04"
 DRIVER = "drv_c04"
-PROPS = ["Ptk.Props.C04", "Ptk.Props.C04Rule", "Ptk.Props.C04F", "Ptk.Props.C04KB", "Ptk.Props.C04W"]
+PROPS = ["Ptk.Props.C04", "Ptk.Props.C04Rule", "Ptk.Props.C04F", "Ptk.Props.C04KB", "Ptk.Props.C04W",
+         "Ptk.Props.C04W2", "Ptk.Props.C04World"]
 SERIAL = False
 TECHNIQUE = "Lean 4 proof about an executable model + differential correspondence + property oracle"
 LEVEL_TEXT = ("Lean 4 theorems over an executable model of KeyProcessor._process / process_keys (generic in the "
               "key-binding object, the filters and the handlers), of KeyBindings with its version-invalidated "
               "lookup caches, of the four wrappers and of the filter algebra with its memo dictionaries: "
-              "conservation of keys for every run, reset after a raising handler, the dispatch rule stated "
-              "declaratively (wait / eager / most-specific-last-registered / longest prefix / drop), queue order, "
-              "and/or/invert normalisation preserves meaning in every reachable heap, cached lookups equal the "
-              "uncached ones after any add/remove/lookup interleaving; the model is tied to /repo on every run by a "
-              "differential correspondence (exhaustive small scopes + seeded random scenarios through real "
+              "conservation of keys for every run (delivered / dropped / pushed back as typeahead / pending, in input "
+              "order), reset after a raising handler, the dispatch rule stated declaratively (wait / eager / "
+              "most-specific-last-registered / longest prefix / drop) and proved for every world with sound lookups "
+              "and for the registry model itself, queue order, and/or/invert normalisation preserves meaning in "
+              "every reachable heap, cached lookups equal the uncached ones after any add/remove/lookup "
+              "interleaving, and lookups / .bindings / _version through any nesting of conditional / merged / "
+              "dynamic / global-only wrappers equal the documented lookup over the registries' current bindings in "
+              "every reachable object table (version-bump and retarget lemmas); the model is tied to /repo on every "
+              "run by a differential correspondence (exhaustive small scopes + seeded random scenarios through real "
               "KeyBindings / wrappers / KeyProcessor inside an Application) and an independent oracle")
 LEVEL_NOTE = ("trusted: Lean kernel, axioms propext/Classical.choice/Quot.sound only; the hand-written model "
-              "(validated by the correspondence, not proved equal to the Python); the dispatch theorem assumes "
-              "lookups that agree with a flat binding list (proved for KeyBindings itself, sampled for the "
-              "wrappers); CPython list/dict/generator semantics")
+              "(validated by the correspondence, not proved equal to the Python); the wrapper theorem speaks about "
+              "binding *views* (keys, handler, filter/eager/is_global value under every assignment) and is not "
+              "formally composed with the dispatch theorem, which is composed only with the plain registry; "
+              "CPython list/dict/generator semantics")
 RULE = ("E3: every filter expression built by <=2 (quick) / <=3 (thorough) applications of & | ~ over {c0,c1,True,False}, "
         "each result evaluated under all assignments; E2: 14 wrapper nestings (conditional/merged/dynamic/global-only, "
         "shared and duplicated children, empty merge) x every sequence of 3 (quick) / 4 (thorough) operations from "
@@ -81,33 +87,37 @@ RULE = ("E3: every filter expression built by <=2 (quick) / <=3 (thorough) appli
         "through the top wrapper before and after; E1: every ordered pair of bindings from a pattern pool over "
         "{a,b,Any} (len<=3) x eager x filter, driven with every key string over {a,b} up to len 3 (quick) / 4 (thorough), "
         "timeouts after all keys / after every key / after the first key, handlers optionally flipping the condition; "
+        "E4: binding pairs x which handler exits the application / raises / raises EditReadOnlyBuffer x key strings "
+        "over {a,b,c,CPR} (keys left in the buffer become typeahead, CPR still processed, reset after raise); "
         "R1/R2: seeded random scenarios (nested wrappers, handlers that flip conditions, add/remove bindings, retarget, "
         "feed keys, exit, raise, raise EditReadOnlyBuffer; CPR keys, is_done, reset, empty_queue). A case is "
         "non-trivial when it contains at least one lookup, filter operator or process_keys call")
 EXHAUSTIVE = True
 EXHAUSTIVE_SCOPE = {
-    "quick": "E3 depth 2 over {c0,c1,True,False}; E2 14 structures x 10^3 op sequences; E1 28x28 binding pairs x 14 key strings x 2 timeout modes",
-    "thorough": "E3 depth 3 over {c0,c1,True}; E2 14 structures x 10^4 op sequences; E1 108x108 binding pairs x 30 key strings x 3 timeout modes + 12000 sampled triples/quadruples"}
+    "quick": "E3 depth 2 over {c0,c1,True,False}; E2 14 structures x 10^3 op sequences; E1 28x28 binding pairs x 14 key strings x 2 timeout modes; E4 7x7 pairs x 6 handler behaviours x 84 key strings (len<=3 over 4 keys)",
+    "thorough": "E3 depth 3 over {c0,c1,True}; E2 14 structures x 10^4 op sequences; E1 108x108 binding pairs x 30 key strings x 3 timeout modes + 12000 sampled triples/quadruples; E4 18x18 pairs x 6 behaviours x 340 key strings (len<=4)"}
 TRUSTED = ["harness/c04.py compares, after every operation, the printed structure of filters (incl. object identity of "
            "memoised results), binding lists, versions, and for every process_keys call the sequence of queue pops, "
-           "before/after events, handler calls with key_sequence and previous_key_sequence, dropped keys, bell, raise, "
-           "and the key buffer / input queue / previous sequence afterwards",
+           "before/after events, handler calls with key_sequence and previous_key_sequence, dropped keys, keys pushed "
+           "back to the queue, bell, raise, and the key buffer / input queue / previous sequence afterwards",
            "Ptk/Model/C04F.lean, C04KB.lean, C04.lean are hand translations of filters/base.py, key_bindings.py, "
            "cache.py (SimpleCache) and key_processor.py (correspondence-checked)",
-           "a transparent proxy around the _process generator records what each send() consumed; dropped keys are "
-           "derived from the key buffer by object identity"]
+           "a transparent proxy around the _process generator records what each send() consumed; dropped and "
+           "pushed-back keys are derived from the key buffer / input queue by object identity"]
 ASSUMPTIONS = ["filters are pure (Condition functions read switches and have no effects)",
                "handlers do not re-enter process_keys, do not touch key_buffer directly and are scripted: flip "
                "conditions, add/remove bindings, retarget dynamic wrappers, feed keys, exit, raise (the theorems hold "
                "for arbitrary handler functions on the world and the queue)",
                "a timeout is the _Flush key in the input queue (the asyncio timer of _start_timeout is not run)",
-               "CPython list mutation-while-iterating, dict and generator semantics"]
-PARTIAL_SCOPE = ["the dispatch theorem is relative to `Sound` lookups; soundness is proved for the KeyBindings registry "
-                 "(kb_lookups_reflect) and only sampled (correspondence E2/R + oracle) for nested wrappers",
+               "wrapper theorem: is_global arguments are the constants True/False (a switchable is_global filter is "
+               "evaluated when GlobalOnlyKeyBindings resynchronises and is then stale until the next version change; "
+               "the model follows the code, the theorem and the oracle exclude it)",
+               "CPython list mutation-while-iterating, dict and generator semantics; live objects have distinct id()"]
+PARTIAL_SCOPE = ["the dispatch theorem is composed with the registry model (dispatch_world); through wrappers it is "
+                 "relative to `Sound` lookups, for which wrappers_always_reflect gives the view-level statement only",
                  "_start_timeout's asyncio task, macro recording, save_before/undo, vi cursor fix-up, Readline arg, "
                  "is_repeat and key aliases (_parse_key) are not modelled",
-                 "GlobalOnlyKeyBindings evaluates is_global() when it resynchronises: a switchable is_global filter is "
-                 "modelled as it is (stale until the next version change) and excluded from the oracle"]
+                 "termination of process_keys when handlers keep feeding keys is not claimed (fuel parameter)"]
 
 # model key number -> real key
 KEYMAP = {0: Keys.Any, 1: Keys.CPRResponse, 2: "a", 3: "b", 4: Keys.ControlX, 5: "c",
@@ -629,6 +639,7 @@ class Sim:
             return self.ver_repr(op[1], self.regs[op[1]]._version)
         if k == "handler":
             self.scripts[op[1]] = op[2]
+            self.hcount[op[1]] = 0      # (re)defining a script re-arms the handler
             return "ok"
         if k == "proc":
             self.kp = KeyProcessor(self.regs[op[1]])
@@ -1324,6 +1335,34 @@ def e3_cases(tier, rng):
         yield {"ops": ops, "fam": "E3"}
 
 
+def e4_cases(tier, rng):
+    """who exits / raises, and what happens to the keys that are still buffered or queued"""
+    pats = QUICK_PATS if tier == "quick" else THOROUGH_PATS
+    strings = list(key_strings(3 if tier == "quick" else 4, alphabet=(2, 3, 5, 1)))
+    behaviours = [({"exit": True}, None), (None, {"exit": True}), ({"outcome": "raise"}, None),
+                  (None, {"outcome": "ro"}), ({"exit": True, "feeds": [[False, [[2, 900]]]]}, None),
+                  ({"exit": True}, {"outcome": "raise"})]
+    for p1 in pats:
+        for p2 in pats:
+            for b0, b1 in behaviours:
+                ops = [["mk", "k", "kb"], ["op", ["add", "k", 0, True, False, False, p1]],
+                       ["op", ["add", "k", 1, True, rng.random() < 0.3, False, p2]], ["proc", "k"]]
+                tag = 0
+                for ks in strings:
+                    ops += [["setdone", False], ["reset"], ["emptyq"]]
+                    if b0:
+                        ops.append(["handler", 0, [dict(b0)]])
+                    if b1:
+                        ops.append(["handler", 1, [dict(b1)]])
+                    # scripts are indexed by invocation count: re-arm by re-registering a fresh handler id
+                    kps = []
+                    for k in ks:
+                        tag += 1
+                        kps.append([k, tag])
+                    ops += [["feed", False, kps], ["process"], ["feed", False, ["F"]], ["process"]]
+                yield {"ops": ops, "fam": "E4"}
+
+
 def dense_case(rng):
     """random scenario biased to overlapping bindings on few keys"""
     ops = [["cond", "c0", 0], ["cond", "c1", 1], ["cond", "c2", 2], ["inv", "n0", "c0"], ["and", "a01", "c0", "c1"],
@@ -1402,6 +1441,7 @@ def cases(tier, rng):
     yield from e3_cases(tier, rng)
     yield from e2_cases(tier, rng)
     yield from e1_cases(tier, rng)
+    yield from e4_cases(tier, rng)
     n = 1500 if tier == "quick" else 25000
     for _ in range(n):
         yield dense_case(rng)
